@@ -58,6 +58,8 @@ type Opts struct {
 	Branches  int  // per log, >= 1
 	Unique    bool
 	HandIDs   bool // some IDs are hand-made rather than hex(SHA-256("o:"+origin))
+	// SameKeyNames: some logs use a key with the same NAME as another log's key but different key material (a rotated key).
+	SameKeyNames bool
 }
 
 func seed32(r *rand.Rand) (s [32]byte) {
@@ -95,7 +97,11 @@ func NewUniverse(r *rand.Rand, o Opts) *Universe {
 		if o.ShareKeys && i > 0 && r.IntN(2) == 0 {
 			l.Key = u.Logs[r.IntN(i)].Key
 		} else {
-			l.Key = refnote.NewSignKey(fmt.Sprintf("logkey%d.example", i), seed32(r))
+			name := fmt.Sprintf("logkey%d.example", i)
+			if o.SameKeyNames && i > 0 && r.IntN(2) == 0 {
+				name = u.Logs[r.IntN(i)].Key.Name
+			}
+			l.Key = refnote.NewSignKey(name, seed32(r))
 		}
 		seed := r.Uint64()
 		for b := 0; b < o.Branches; b++ {
